@@ -151,6 +151,10 @@ def run(chk: Check):
     chk.run_proofs()
     for tag, prog, sources in CORPUS:
         run_one(chk, da, prog, sources, progs.eval_np(prog, sources), tag=tag)
+    for fam in (progs.misaligned_take, progs.diag_equal_counts, progs.arange_fftfreq, progs.slice_chain):
+        for _ in range(300 if chk.tier == "thorough" else 30):
+            prog, sources, want = fam(chk.rng)
+            run_one(chk, da, prog, sources, want)
     n = 12000 if chk.tier == "thorough" else 1500
     for prog, sources, want in progs.gen_programs(chk.rng, n):
         run_one(chk, da, prog, sources, want)
